@@ -1721,10 +1721,14 @@ func makePointerArshaler(t reflect.Type) *arshaler {
 	init := func() {
 		valFncs = lookupArshaler(t.Elem())
 	}
+	// Following a pointer to a pointer or to an interface does not increase
+	// the JSON depth, so a cycle made only of such hops never reaches
+	// startDetectingCyclesAfter. Always track those pointers.
+	pointsToPointerLike := t.Elem().Kind() == reflect.Pointer || t.Elem().Kind() == reflect.Interface
 	fncs.marshal = func(enc *jsontext.Encoder, va addressableValue, mo *jsonopts.Struct) error {
 		// Check for cycles.
 		xe := export.Encoder(enc)
-		if xe.Tokens.Depth() > startDetectingCyclesAfter {
+		if xe.Tokens.Depth() > startDetectingCyclesAfter || pointsToPointerLike {
 			if err := visitPointer(&xe.SeenPointers, va.Value); err != nil {
 				return newMarshalErrorBefore(enc, t, err)
 			}
